@@ -149,7 +149,8 @@ pub fn check_streams(expects: &[Expect], got: &Streams) -> Result<(), String> {
 /// Ordering clause (C02/C04), judged on the raw log of a `run` execution with
 /// the recording writer: after a query handler succeeded, its response bytes
 /// (ending in a newline) and one flush must be seen before anything else
-/// happens; a command, a failed handler or an error produces no output.
+/// happens; a command, a failed handler or an error produces no output (a flush
+/// with nothing pending is not output and is not judged).
 pub fn check_unit_order(log: &[Ev], is_query: &dyn Fn(u16) -> bool) -> Result<(), String> {
     #[derive(PartialEq, Debug)]
     enum St {
@@ -179,7 +180,8 @@ pub fn check_unit_order(log: &[Ev], is_query: &dyn Fn(u16) -> bool) -> Result<()
                     }
                     st = St::Idle;
                 }
-                St::Idle => return Err(format!("event {}: flush although no response is due", i)),
+                // a flush while nothing is pending moves no byte: it is not output
+                St::Idle => {}
             },
             Ev::Enter { .. } | Ev::Error { .. } | Ev::Mark(_) | Ev::RunRet { .. } => {
                 if let St::Resp(buf) = &st {
